@@ -6,4 +6,8 @@ var verifHarnesses = map[string]func(){
 	"HarnessSmoke2": HarnessSmoke2,
 	"HarnessC01a":   HarnessC01a,
 	"HarnessC04a":   HarnessC04a,
+	"HarnessC05a":   HarnessC05a,
+	"HarnessC08a":   HarnessC08a,
+	"HarnessC13a":   HarnessC13a,
+	"HarnessC16a":   HarnessC16a,
 }
